@@ -103,6 +103,7 @@ type Explorer struct {
 	res     *Result
 	stop    bool
 	t0      time.Time
+	perClass map[string]int
 	abort   bool // set by the watchdog: running paths end at their next instruction
 	rng     uint64
 }
@@ -345,7 +346,13 @@ func (p *Path) violation(kind, msg string, extra *Term, stack string) {
 	}
 	viol := &Violation{Kind: kind, Msg: msg, Model: m, VarOrder: append([]string(nil), p.varOrder...),
 		Decisions: append([]int(nil), p.decisions...), Trace: p.renderEvents(), Stack: stack}
-	if ex.opts.MaxViol == 0 || len(ex.res.Violations) < ex.opts.MaxViol {
+	// keep at most a few candidates per class (kind + message + innermost frame)
+	cls := kind + "|" + msg + "|" + firstLine(stack)
+	if ex.perClass == nil {
+		ex.perClass = map[string]int{}
+	}
+	if ex.perClass[cls] < 3 && (ex.opts.MaxViol == 0 || len(ex.res.Violations) < ex.opts.MaxViol) {
+		ex.perClass[cls]++
 		ex.res.Violations = append(ex.res.Violations, viol)
 	}
 	if ex.opts.StopAtFirst {
@@ -454,6 +461,15 @@ func (pr *Program) Explore(entry *ssa.Function, opts Options) *Result {
 			case <-done:
 				return
 			case <-tick.C:
+				if w := opts.bound("wall_s", 0); w > 0 && time.Since(t0) > time.Duration(w+5)*time.Second {
+					ex.mu.Lock()
+					if !ex.abort {
+						ex.res.Inconclusive = append(ex.res.Inconclusive, fmt.Sprintf("time budget %ds exhausted while paths were still running", w))
+						ex.stop, ex.abort = true, true
+						ex.cond.Broadcast()
+					}
+					ex.mu.Unlock()
+				}
 				var ms runtime.MemStats
 				runtime.ReadMemStats(&ms)
 				if ms.HeapAlloc > limit {
@@ -487,8 +503,13 @@ func (pr *Program) Explore(entry *ssa.Function, opts Options) *Result {
 func (ex *Explorer) worker(id int) {
 	solver, err := NewSolver(ex.opts.Solver, ex.opts.TimeoutMs)
 	if err == nil {
-		solver.OneShot = []string{"z3-new", "cvc5", "z3"}
+		solver.OneShot = []string{"z3-new", "cvc5"}
 		solver.OneShotTimeoutMs = ex.opts.FallbackTimeoutMs
+		solver.Abort = &ex.abort
+		if w := ex.opts.bound("wall_s", 0); w > 0 && w <= 60 {
+			// budgeted quick runs do not wait long for a single undecided query
+			solver.OneShotTimeoutMs = 6000
+		}
 	}
 	if err != nil {
 		ex.mu.Lock()
@@ -519,6 +540,7 @@ func (ex *Explorer) worker(id int) {
 		if w := ex.opts.bound("wall_s", 0); w > 0 && time.Since(ex.t0) > time.Duration(w)*time.Second {
 			ex.res.Inconclusive = append(ex.res.Inconclusive, fmt.Sprintf("time budget %ds exhausted with %d prefixes unexplored", w, len(ex.front)))
 			ex.stop = true
+			ex.abort = true
 			ex.cond.Broadcast()
 			ex.mu.Unlock()
 			break
